@@ -301,7 +301,15 @@ func CheckUserInput(conf Root) error {
 				err = fmt.Errorf("%q %w", val, err)
 			}
 		}
+		checkInputs func([]dig.Input)
 	)
+	checkInputs = func(inputs []dig.Input) {
+		for _, inp := range inputs {
+			check("referenced table name", inp.Filter.Ref.Table)
+			check("referenced column name", inp.Filter.Ref.Column)
+			checkInputs(inp.Components)
+		}
+	}
 	for _, ig := range conf.Integrations {
 		check("integration name", ig.Name)
 		check("table name", ig.Table.Name)
@@ -309,13 +317,31 @@ func CheckUserInput(conf Root) error {
 			check("column name", c.Name)
 			check("column type", c.Type)
 		}
+		for _, cols := range ig.Table.Unique {
+			for _, name := range cols {
+				check("unique column name", name)
+			}
+		}
+		for _, cols := range ig.Table.Index {
+			for _, stmt := range cols {
+				// column name optionally followed by a sort order
+				name, order, _ := strings.Cut(stmt, " ")
+				check("index column name", name)
+				switch strings.ToLower(order) {
+				case "", "asc", "desc":
+				default:
+					if err == nil {
+						err = fmt.Errorf("%q index sort order must be asc or desc", stmt)
+					}
+				}
+			}
+		}
 		for _, name := range ig.Notification.Columns {
 			check("notification column name", name)
 		}
-		for _, inp := range ig.Event.Inputs {
-			check("referenced column name", inp.Filter.Ref.Column)
-		}
+		checkInputs(ig.Event.Inputs)
 		for _, bd := range ig.Block {
+			check("referenced table name", bd.Filter.Ref.Table)
 			check("referenced column name", bd.Filter.Ref.Column)
 		}
 	}
